@@ -33,7 +33,7 @@ non-default options, 64-bit ids next to floats, one array object at two block po
 G14 for list aliasing in `TypeBlocks.__copy__` — which the proved value-level contract of `__copy__` cannot see),
 6 by wider stand-in scopes. The honest reading: on central, contracted code the machinery catches unseen changes;
 on the long tail it catches what its enumerations happen to include, and each batch moves that boundary a little.
-**Batch 5** (@N5@ changes for C01, C02, C04, C05, C06, C08, C13, C14, C15, C17 — the ten properties batch 4 had not covered; the agents were only told to prefer a less central code path) ran against the machinery as it stood after batch 4: @C5@ of @N5@ were reported by the first run, @DG5@ of them by a D or G obligation (see the table). In batch 2 every one of the 23 missed changes led to a strengthening (named in the
+**Batch 5** (@N5@ changes for C01, C02, C04, C05, C06, C08, C13, C14, C15, C17 — the ten properties batch 4 had not covered; the agents were only told to prefer a less central code path) ran against the machinery as it stood after batch 4: @C5@ of @N5@ were reported by the first run; @DG5@ of the @N5@ are refuted by a D or G obligation today (contracts of `Frame._ufunc_binary_operator`, `axis_window_items`, `IndexHierarchy.__init__`; G13; and G16, written for the one miss, C17/8), the others by stand-in failure keys (see the table). In batch 2 every one of the 23 missed changes led to a strengthening (named in the
 "first run" column): new or completed contracts (`LocMap.bound_offset_slice`, `free_conditions` in the offset
 contract, `IndexHierarchy.from_index_items`, and — written after the stand-ins had been widened —
 `Index.equals`, `_ufunc_logical_skipna`, `SeriesAssign.__call__`, `normalize_container`, which now refute
